@@ -503,8 +503,17 @@ def ready_recheck(ck, ctx):
     R = ctx.res(b)
     cfg = ctx.cfg(b)
     ck.functions.add(b.nname)
+    # state tests on the producer: BuildStates::get(..) compared with Done, or a bool helper whose truth table over
+    # the seven states is computed by finite-domain interpretation (an edge counts as `Done` only if every state it
+    # admits is Done)
     gets = Q.sites_in(b, "work::BuildStates::get")
-    ck.floor("BuildStates::get in recheck_ready", len(gets), 1)
+    helpers = []
+    for bb, t in b.calls():
+        c = callee_of(t)
+        if c.startswith("work::BuildStates::") and c != "work::BuildStates::get" and F.body(c) is not None and F.body(c).locals[0]["s"] == "bool":
+            tab = SM.state_predicate_table(F, c)
+            helpers.append((bb, t, c, tab))
+    ck.floor("state tests on the producer in recheck_ready", len(gets) + len(helpers), 1)
     # iterates ordering_ins of its build parameter
     its = [c for bb, t in b.calls() for c in [callee_of(t)] if c.startswith("graph::Build::") and c.endswith("_ins")]
     ck.ob("ready-recheck", "iterates", its == ["graph::Build::ordering_ins"], "recheck_ready iterates %s (need exactly ordering_ins)" % its, span=b.loc, fn=b.nname)
@@ -512,6 +521,8 @@ def ready_recheck(ck, ctx):
         if callee_of(t) == "graph::Build::ordering_ins":
             e = strip(R.arg(bb, 0))
             ck.ob("ready-recheck", "iterates-param", e[0] == "param", "ordering_ins is taken of the build parameter (%s)" % show(e), span=t["loc"], fn=b.nname)
+            whole, bad_ad = C.iter_is_whole(R.discr(next(x for x, t_, sc, adt, vm in Q.enum_switches(ctx, b) if adt == "std::option::Option" and any(c[3] == bb for c in calls_in(strip(sc))))) if any(adt == "std::option::Option" and any(c[3] == bb for c in calls_in(strip(sc))) for x, t_, sc, adt, vm in Q.enum_switches(ctx, b)) else ("unk",))
+            ck.ob("ready-recheck", "all-ordering-inputs", whole, "every ordering input is examined (no limiting iterator adapter: %s)" % bad_ad, span=t["loc"], fn=b.nname)
     # `true` only when the iterator is exhausted
     trues = []
     falses = []
@@ -527,36 +538,56 @@ def ready_recheck(ck, ctx):
             none_edges.add((x, vmap.get("None")))
     ok = bool(trues) and all(Q.gated(cfg, tb, none_edges)[0] for tb in trues)
     ck.ob("ready-recheck", "true-only-at-exhaustion", ok, "recheck_ready yields true only on the iterator's None edge (true blocks %s, None edges %s)" % (trues, sorted(none_edges)), span=b.loc, fn=b.nname)
-    # for a generated input, going on to the next input requires producer state == Done
-    for i, (bb, t) in enumerate(gets):
+    tests = [(bb, t, "get", None) for bb, t in gets] + [(bb, t, c, tab) for bb, t, c, tab in helpers]
+    for i, (bb, t, kind, tab) in enumerate(tests):
         ide = strip(R.arg(bb, 1))
         base, names = field_chain(ide)
         okp = "input" in names and any(c[1] == "graph::Graph::file" for c in calls_in(ide))
         ck.ob("ready-recheck", "get#%d|producer" % i, okp, "state looked up is that of the input's producer: %s" % show(ide, 3), span=t["loc"], fn=b.nname)
-        # the file is the iterated one
         fe = [c for c in calls_in(ide) if c[1] == "graph::Graph::file"]
         okf = bool(fe) and any(cc[1] == "graph::Build::ordering_ins" for cc in calls_in(fe[0][2][1]))
         ck.ob("ready-recheck", "get#%d|iterated-file" % i, okf, "the file examined is the iterated ordering input", span=t["loc"], fn=b.nname)
+        done_edges = set()
+        if kind == "get":
 
-        def pred(e):
-            e = strip(e)
-            if e[0] != "call":
+            def pred(e):
+                e = strip(e)
+                if e[0] != "call":
+                    return False
+                is_ne = e[1].endswith("::ne")
+                if not (e[1].endswith("::eq") or is_ne):
+                    return False
+                a, c2 = strip(e[2][0]), strip(e[2][1])
+                for x, y in ((a, c2), (c2, a)):
+                    if y[0] == "promoted" and y[2] == ("enum", STATE, "Done") and x[0] == "call" and x[1] == "work::BuildStates::get" and x[3] == bb:
+                        return "neg" if is_ne else True
                 return False
-            is_ne = e[1].endswith("::ne")
-            if not (e[1].endswith("::eq") or is_ne):
-                return False
-            a, c2 = strip(e[2][0]), strip(e[2][1])
-            for x, y in ((a, c2), (c2, a)):
-                if y[0] == "promoted" and y[2] == ("enum", STATE, "Done") and x[0] == "call" and x[1] == "work::BuildStates::get" and x[3] == bb:
-                    return "neg" if is_ne else True
-            return False
 
-        done_edges = C.bool_gate_edges(ctx, b, pred)
+            done_edges = C.bool_gate_edges(ctx, b, pred)
+            desc = "`== Done`"
+        else:
+            desc = "%s (truth table %s)" % (kind.split("::")[-1], tab)
+            if tab is not None:
+                for sbb, st, e in Q.switches(ctx, b):
+                    neg = False
+                    ee = e
+                    while ee[0] == "un" and ee[1] == "Not":
+                        ee = ee[2]
+                        neg = not neg
+                    ee = strip(ee)
+                    if ee[0] == "call" and ee[3] == bb:
+                        tl, fl = Q.bool_edges(st)
+                        for val, lab in ((True, tl), (False, fl)):
+                            v = (not val) if neg else val
+                            admitted = {s_ for s_, r_ in tab.items() if r_ == v}
+                            if admitted and admitted <= {"Done"}:
+                                done_edges.add((sbb, lab))
         hdr = cfg.enclosing_loop_header(bb)
         nxt = [x for x, _ in cfg.succ[bb]]
         r = cfg.reach_avoid(nxt, avoid_edges=done_edges)
         bad = (hdr in r) or any(tb in r for tb in trues)
-        ck.ob("ready-recheck", "get#%d|not-done-returns-false" % i, bool(done_edges) and not bad, "after get(producer) the loop continues (or true is returned) only through `== Done` (edges %s)" % sorted(done_edges), span=t["loc"], fn=b.nname)
+        ck.ob("ready-recheck", "get#%d|not-done-returns-false" % i, bool(done_edges) and not bad, "after the state test %s the loop continues (or true is returned) only on an edge that admits no state but Done (edges %s)" % (desc, sorted(done_edges)), span=t["loc"], fn=b.nname)
+    gets = [(bb, t) for bb, t, _, _ in tests]
     # the loop body cannot skip a generated input: from the Some(input) arm the get call is unavoidable
     for x, t_, scrut, adt, vmap in Q.enum_switches(ctx, b):
         base, names = field_chain(strip(scrut))
